@@ -99,8 +99,9 @@ class Sut(object):
                 bytes(self.disk.files[t.lru_trie_path]),
                 bytes(self.disk.files[t.link_store_path]),
             )
-        t.lru_trie_file.flush()
-        t.link_store_file.flush()
+        for f_ in (t.lru_trie_file, t.link_store_file):
+            if not f_.closed:
+                f_.flush()
         with open(t.lru_trie_path, "rb") as f:
             a = f.read()
         with open(t.link_store_path, "rb") as f:
@@ -224,7 +225,10 @@ def exec_sut(sut, op, refs, model):
         if k == "batch":
             data = {}
             for s, ts in op["data"]:
-                data[arg(s)] = [arg(x) for x in ts]
+                tl = [arg(x) for x in ts]
+                # multimap values may be any iterable: lists, tuples, or one-shot iterators
+                form = op.get("targets_as", "list")
+                data[arg(s)] = tl if form == "list" else (tuple(tl) if form == "tuple" else iter(tl))
             if op.get("drive") == "until_done":
                 return canon_report(drive_until_done(t.index_batch_crawl_iter(data, op.get("yf", 50))))
             return canon_report(t.index_batch_crawl(data, yield_frequency=op.get("yf", 50)))
@@ -253,6 +257,19 @@ def exec_sut(sut, op, refs, model):
             return ("ok", t.remove_webentity_creation_rule(arg(op["anchor"])))
         if k == "reopen":
             sut.reopen(model.default_src, model.rules_src)
+            return ("ok", None)
+        if k == "reopen_older_release":
+            # the stores were written by another release of the library: only the version
+            # string in the two header blocks differs
+            sut.close()
+            if sut.backend == "sim":
+                tr = sut.traph
+                for path, off in ((tr.lru_trie_path, 4), (tr.link_store_path, 0)):
+                    buf = sut.disk.files[path]
+                    n = buf[off]
+                    if 1 <= n <= 11:
+                        buf[off + 1 : off + 1 + n] = (b"2.9.8-legacy"[:n]).ljust(n, b"0")
+            sut.open(model.default_src, model.rules_src)
             return ("ok", None)
         if k == "reopen_overwrite":
             sut.reopen(model.default_src, model.rules_src, overwrite=True)
@@ -311,7 +328,7 @@ def exec_model(model, op, refs, observed):
             return observed, None
         if k == "remove_rule":
             return ("ok", model.remove_rule(dec(op["anchor"]))), None
-        if k == "reopen":
+        if k in ("reopen", "reopen_older_release"):
             return ("ok", None), None
         if k == "reopen_overwrite":
             model.reset(None, dict(model.rules_src))
